@@ -271,7 +271,28 @@ func callSite() (int64, int64) {
 	if len(fr) == 0 {
 		return 0, 0
 	}
-	return siteCode(fr[0]), siteCode(fr[len(fr)-1])
+	return firstKnown(fr), lastKnown(fr)
+}
+
+// firstKnown / lastKnown: the innermost / outermost library frame that is one of the named sites. A frame that is not (a
+// helper extracted by a refactoring, a closure turned into a method) is looked through: the call still belongs to the named
+// function around it.
+func firstKnown(fr []string) int64 {
+	for _, f := range fr {
+		if c := siteCode(f); c != 0 {
+			return c
+		}
+	}
+	return 0
+}
+
+func lastKnown(fr []string) int64 {
+	for i := len(fr) - 1; i >= 0; i-- {
+		if c := siteCode(fr[i]); c != 0 {
+			return c
+		}
+	}
+	return 0
 }
 
 // flagSite returns (cause, root) for a change of the leadership claim: the function that
@@ -284,8 +305,12 @@ func flagSite() (int64, int64) {
 	cause := ""
 	for i, f := range fr {
 		if f == "becomeLeader" || f == "becomeFollower" {
-			if i+1 < len(fr) {
-				cause = fr[i+1]
+			// the nearest named function around the call (helpers in between are looked through)
+			for _, g := range fr[i+1:] {
+				if siteCode(g) != 0 {
+					cause = g
+					break
+				}
 			}
 			break
 		}
@@ -294,7 +319,7 @@ func flagSite() (int64, int64) {
 			break
 		}
 	}
-	return siteCode(cause), siteCode(fr[len(fr)-1])
+	return siteCode(cause), lastKnown(fr)
 }
 
 func gid() int64 {
